@@ -20,13 +20,14 @@ AST
 import struct
 
 TYN = {"I": "INTEGER", "F": "FLOAT", "S": "STRING", "B": "BOOL", "R": "RTIME", "T": "TIME", "P": "IP",
-       "K": "BACKEND", "A": "ACL"}
+       "K": "BACKEND", "A": "ACL", "X": "REGEX"}
 CORE = "IFSBR"
-WILD_TYPES = "TPKA"
+WILD_TYPES = "TPKAX"          # with CORE: every type value.Create knows
 BACKENDS = ["F_a", "F_b", "F_c"]
 ACLS = ["A_a", "A_b"]
 WILD_DECLS = "".join('backend %s { .host = "127.0.0.%d"; .port = "80"; }\n' % (b, i + 1) for i, b in enumerate(BACKENDS)) + \
-    "".join('acl %s { "10.%d.0.0"/16; }\n' % (a, i) for i, a in enumerate(ACLS))
+    "".join('acl %s { "10.%d.0.0"/16; }\n' % (a, i) for i, a in enumerate(ACLS)) + \
+    'table rt REGEX { "a": "^a+", "b": "b$", "k": "^(k)=", }\n'
 FIELDS = ["k1", "k2"]
 STATES = ["lookup", "pass", "deliver"]
 SCOPES = {
@@ -835,7 +836,7 @@ class StoreGen:
             if self.wild:
                 npar = r.choice([1, 1, 2, 2, 3]) if self.focus else r.choice([0, 1, 1, 2])
                 params = [(self.fresh_local(), r.choice(CORE + WILD_TYPES + "KKTP")) for _ in range(npar)]
-                ret = r.choice([None, None, "I", "S", "B", "R", "F", "K", "K", "T", "P"])
+                ret = r.choice([None, None, "I", "S", "B", "R", "F", "K", "K", "T", "P"])    # REGEX / ACL cannot be returned
                 for _, t in params:
                     self._c("dim:types:param-" + TYN[t])
                 if ret:
@@ -908,7 +909,9 @@ class WildGen(StoreGen):
         if() and through functions returning that type"""
         r = self.r
         vs = [("l", k) for k, t in fr["locals"].items() if t == ty]
-        lits = {"T": ["now"], "P": ['"10.0.0.1"', "client.ip", '"192.168.7.7"'], "K": BACKENDS, "A": ACLS}[ty]
+        lits = {"T": ["now"], "P": ['"10.0.0.1"', "client.ip", '"192.168.7.7"'], "K": BACKENDS, "A": ACLS,
+                "X": ['table.lookup_regex(rt, "a")', 'table.lookup_regex(rt, "b")', 'table.lookup_regex(rt, "k")',
+                      'table.lookup_regex(rt, "nokey")', '"^ab"', '"c$"']}[ty]
         lit = ("raw", r.choice(lits), {})
         k = r.random()
         if vs and (k < 0.6 or ty == "A"):
@@ -933,7 +936,8 @@ class WildGen(StoreGen):
             return None                       # ACL locals cannot be assigned in this interpreter
         self._c("dim:types:assign-" + TYN[t])
         if literal:
-            return ("set", T, "=", ("raw", {"T": "now", "P": '"10.9.8.7"', "K": r.choice(BACKENDS)}[t], {}))
+            return ("set", T, "=", ("raw", {"T": "now", "P": '"10.9.8.7"', "K": r.choice(BACKENDS),
+                                            "X": 'table.lookup_regex(rt, "%s")' % r.choice("abk")}[t], {}))
         return ("set", T, "=", self.wild_typed(fr, t, 1))
 
     def wild_expr(self, fr, ty, d):
@@ -993,7 +997,16 @@ class WildGen(StoreGen):
             self._c("wstmt:" + c)
             return ("rawstmt", text, {"target": target, "has": list(has)})
         if c == "typed":
-            ws = [(k, t) for k, t in fr["locals"].items() if t in "TPK"]
+            ws = [(k, t) for k, t in fr["locals"].items() if t in "TPKXX"]
+            xs = [k for k, t in fr["locals"].items() if t == "X"]
+            bs = [k for k, t in fr["locals"].items() if t == "B"]
+            sv = self.vars_of(fr, "S")
+            if xs and bs and sv and r.random() < 0.2:
+                # a REGEX local used as a pattern (never assigned: matches nothing)
+                self._c("dim:types:match-with-REGEX-local")
+                bk = r.choice(bs)
+                return ("rawstmt", "set var.v%d = (%s ~ var.v%d);" % (bk, self.p.name_text(r.choice(sv)), r.choice(xs)),
+                        {"target": "var.v%d" % bk, "has": ["match"]})
             if ws:
                 k, t = r.choice(ws)
                 return self.assign_any(fr, k, t)
